@@ -296,6 +296,7 @@ func runC01(c *Ctx) {
 	}
 
 	s.checkSkippedFindable(c, "skipped-is-findable")
+	s.checkExitCodeProvenance(c, "exitcode-provenance")
 }
 
 func isOneOf(in ssa.Instruction, set []ssa.Instruction) bool {
